@@ -589,6 +589,7 @@ type usage struct {
 	name       string
 	loc        *ast.Type // expected type at the location (nil: no typed location, e.g. inside a custom scalar)
 	locDefault bool      // the location (argument / input field) has a default value
+	oneOf      string    // non-empty: the variable is the value of a field of this oneOf input object
 }
 
 // usagesInValue collects variable usages with their location types.
@@ -598,7 +599,7 @@ func (c *checker) usagesInValue(v *ast.Value, t *ast.Type, locDefault bool, out 
 	}
 	switch v.Kind {
 	case ast.Variable:
-		*out = append(*out, usage{v.Raw, t, locDefault})
+		*out = append(*out, usage{name: v.Raw, loc: t, locDefault: locDefault})
 	case ast.ListValue:
 		var et *ast.Type
 		if t != nil && t.Elem != nil {
@@ -629,7 +630,11 @@ func (c *checker) usagesInValue(v *ast.Value, t *ast.Type, locDefault bool, out 
 					ft, def = f.Type, f.DefaultValue != nil
 				}
 			}
+			n := len(*out)
 			c.usagesInValue(ch.Value, ft, def, out)
+			if d != nil && d.Kind == ast.InputObject && d.Directives.ForName("oneOf") != nil && ch.Value != nil && ch.Value.Kind == ast.Variable && len(*out) == n+1 {
+				(*out)[n].oneOf = d.Name
+			}
 		}
 	}
 }
@@ -720,6 +725,9 @@ func (c *checker) variableUses(op *ast.OperationDefinition) {
 		if vd == nil {
 			c.bad("NoUndefinedVariables", "operation %q uses undefined $%s", op.Name, u.name)
 			continue
+		}
+		if u.oneOf != "" && !vd.Type.NonNull {
+			c.bad(rule56, "nullable $%s used as the field of oneOf input object %s", u.name, u.oneOf)
 		}
 		if u.loc == nil {
 			continue
